@@ -316,3 +316,136 @@ theorem alignOKB_iff (pron : Int → List Int) (nEmit : Nat) (senOK : Int → Na
     exact ⟨⟨⟨⟨⟨⟨⟨⟨⟨h1, h2⟩, h3⟩, h4⟩, h5⟩, h6⟩, h7⟩, h8⟩, h9⟩, h10⟩
 
 end SSVerif.Align
+
+/-! ## the constrained Viterbi step (`state_align_search_step`, state_align_search.c:66-213) for 3-state
+left-to-right HMMs (`hmm_vit_eval_3st_lr`, hmm.c:482-563) — local minimal model, used by the driver to recompute
+the token stack from the senone scores the real second pass saw. -/
+namespace SSVerif.Align.Step
+
+def worst : Int := -536870912       -- WORST_SCORE = (int)0xE0000000
+def intMin : Int := -2147483648
+
+/-- `hmm_t` of a non-mpx 3-state HMM -/
+structure Hmm where
+  s0 : Int := worst
+  s1 : Int := worst
+  s2 : Int := worst
+  h0 : Int := -1
+  h1 : Int := -1
+  h2 : Int := -1
+  out : Int := worst
+  outH : Int := -1
+  frame : Int := -1
+  deriving Repr, DecidableEq, Inhabited
+
+def clampW (x : Int) : Int := if x < worst then worst else x
+
+/-- `tp[i*4+j]` as the C code reads it (`uint8`, 255 = no transition); scores use `-tp` -/
+def tpAt (tp : Array Int) (i j : Nat) : Int := tp.getD (i * 4 + j) 255
+
+/-- `hmm_vit_eval_3st_lr`; `sen k` = `senscore[sseq[k]]` (non-negative senone score of state k). Returns the HMM and its best score. -/
+def eval3 (tp : Array Int) (sen0 sen1 sen2 : Int) (h : Hmm) : Hmm × Int :=
+  let s2 := h.s2 - sen2
+  let s1 := h.s1 - sen1
+  let s0 := h.s0 - sen0
+  -- transitions into the non-emitting exit state
+  let (out, outH, best, t2) :=
+    if s1 > worst then
+      let t1 := s2 - tpAt tp 2 3
+      let t2 := if tpAt tp 1 3 < 255 then s1 - tpAt tp 1 3 else intMin
+      let (s3, oh) := if t1 > t2 then (t1, h.h2) else (t2, h.h1)
+      let s3 := clampW s3
+      (s3, oh, s3, t2)
+    else (h.out, h.outH, worst, intMin)
+  -- state 2
+  let t0 := s2 - tpAt tp 2 2
+  let t1 := s1 - tpAt tp 1 2
+  let t2 := if tpAt tp 0 2 < 255 then s0 - tpAt tp 0 2 else t2
+  let (n2, nh2) :=
+    if t0 > t1 then (if t2 > t0 then (t2, h.h0) else (t0, h.h2))
+    else (if t2 > t1 then (t2, h.h0) else (t1, h.h1))
+  let n2 := clampW n2
+  let best := if n2 > best then n2 else best
+  -- state 1
+  let t0 := s1 - tpAt tp 1 1
+  let t1 := s0 - tpAt tp 0 1
+  let (n1, nh1) := if t0 > t1 then (t0, h.h1) else (t1, h.h0)
+  let n1 := clampW n1
+  let best := if n1 > best then n1 else best
+  -- state 0
+  let n0 := clampW (s0 - tpAt tp 0 0)
+  let best := if n0 > best then n0 else best
+  ({ h with s0 := n0, s1 := n1, s2 := n2, h1 := nh1, h2 := nh2, out := out, outH := outH }, best)
+
+/-- `hmm_normalize` -/
+def normalize (b : Int) (h : Hmm) : Hmm :=
+  { h with s0 := if h.s0 > worst then h.s0 - b else h.s0, s1 := if h.s1 > worst then h.s1 - b else h.s1,
+           s2 := if h.s2 > worst then h.s2 - b else h.s2, out := if h.out > worst then h.out - b else h.out }
+
+structure Search where
+  hmms : List Hmm
+  best : Int := 0
+  deriving Repr, Inhabited
+
+/-- `state_align_search_init` + `state_align_search_start` -/
+def start (nPhones : Nat) : Search :=
+  { hmms := (List.range nPhones).map fun i => if i = 0 then { s0 := 0, h0 := 0, frame := 0 } else {} }
+
+/-- `evaluate_hmms`: every HMM with `frame ≥ f` is evaluated; paired with its best score (`WORST_SCORE` if skipped) -/
+def evalPhase (tps : Array (Array Int)) (sen : Array Int) (f : Int) (hm : List Hmm) : List (Hmm × Int) :=
+  hm.mapIdx fun i h =>
+    if h.frame < f then (h, worst)
+    else eval3 (tps.getD i #[]) (sen.getD (3 * i) 0) (sen.getD (3 * i + 1) 0) (sen.getD (3 * i + 2) 0) h
+
+/-- `prune_hmms`: an active HMM stays active in frame `f+1` unless `f+1 > ef` -/
+def prunePhase (ef : Array Int) (f : Int) (hm : List Hmm) : List Hmm :=
+  hm.mapIdx fun i h => if h.frame < f then h else if f + 1 > ef.getD i 0 then h else { h with frame := f + 1 }
+
+/-- `phone_transition`, sequentially from phone 0: `i` = index of the head of the list, `prev` = the (already
+updated) HMM before it.  HMM `i` is entered from `prev` when `prev` is active in frame `f+1`, `f+1 ≥ sf[i]`,
+and HMM `i` is inactive or the new score is better (`hmm_enter`). -/
+def transPhase (sf : Array Int) (f : Int) : Nat → Option Hmm → List Hmm → List Hmm
+  | _, _, [] => []
+  | i, none, h :: rest => h :: transPhase sf f (i + 1) (some h) rest
+  | i, some p, nh :: rest =>
+    let nh' :=
+      if p.frame ≠ f + 1 then nh
+      else if f + 1 < sf.getD i 0 then nh
+      else if nh.frame < f ∨ p.out > nh.s0 then { nh with s0 := p.out, h0 := p.outH, frame := f + 1 }
+      else nh
+    nh' :: transPhase sf f (i + 1) (some nh') rest
+
+/-- tokens `record_transitions` pushes for HMM `i` -/
+def rowOf (f : Int) (h : Hmm) : List Tok :=
+  if h.frame < f then [⟨-1, -1⟩, ⟨-1, -1⟩, ⟨-1, -1⟩] else [⟨h.h0, h.s0⟩, ⟨h.h1, h.s1⟩, ⟨h.h2, h.s2⟩]
+
+/-- `record_transitions`: backpointers of the active HMMs are replaced by their own state indices -/
+def relabel (f : Int) (hm : List Hmm) : List Hmm :=
+  hm.mapIdx fun i h =>
+    if h.frame < f then h else { h with h0 := (3 * i : Nat), h1 := (3 * i + 1 : Nat), h2 := (3 * i + 2 : Nat) }
+
+/-- the HMMs after evaluation, pruning and phone transitions of frame `f` (before `record_transitions`) -/
+def advance (tps : Array (Array Int)) (sf ef : Array Int) (sen : Array Int) (f : Int) (hm : List Hmm) : List Hmm :=
+  transPhase sf f 0 none (prunePhase ef f ((evalPhase tps sen f hm).map (·.1)))
+
+/-- one frame: `tps[i]` = transition matrix of phone i, `sen` = senone score per state (3 per phone).
+Returns the search and the token row pushed by `record_transitions`. -/
+def step (tps : Array (Array Int)) (sf ef : Array Int) (sen : Array Int) (f : Int) (s : Search) : Search × List Tok :=
+  -- renormalisation (never reached in practice; kept as in the C code)
+  let hm := if s.best - 0x300000 < worst then s.hmms.map (normalize s.best) else s.hmms
+  let best := ((evalPhase tps sen f hm).map (·.2)).foldl (fun b x => if x > b then x else b) worst
+  let hm := advance tps sf ef sen f hm
+  ({ hmms := relabel f hm, best := best }, hm.flatMap (rowOf f))
+
+/-- the whole second pass over the per-frame senone scores; returns the token stack, the final
+`(out_history, out_score)` of the last phone, and whether the renormalisation branch was ever taken -/
+def run (tps : Array (Array Int)) (sf ef : Array Int) (frames : List (Array Int)) : List (List Tok) × Tok × Bool :=
+  let n := sf.size
+  let r := frames.foldl (fun (acc : Search × List (List Tok) × Int × Bool) sen =>
+      let (s, rows, f, rn) := acc
+      let (s', row) := step tps sf ef sen f s
+      (s', row :: rows, f + 1, rn || decide (s.best - 0x300000 < worst))) (start n, [], 0, false)
+  let last := r.1.hmms.getD (n - 1) {}
+  (r.2.1.reverse, ⟨last.outH, last.out⟩, r.2.2.2)
+
+end SSVerif.Align.Step
